@@ -1,4 +1,861 @@
+(* C03/Lemmas.v — proofs about the model of Model.v.  Stdlib only, no axioms. *)
 From Common Require Import Prelude.
 From C03 Require Import Model.
 Open Scope Z_scope.
-Lemma placeholder_l : forall s : state, s = s. Proof. reflexivity. Qed.
+
+(* ------------------------------------------------------------------------------------------------ *)
+(* generic fold invariants                                                                           *)
+Lemma fold_inv {X Y} (f : X -> Y -> X) (P : X -> Prop) (l : list Y) :
+  (forall a b, P a -> P (f a b)) -> forall a, P a -> P (fold_left f l a).
+Proof. intros H. induction l as [|y l IH]; cbn; intros a Ha; [exact Ha | apply IH, H, Ha]. Qed.
+
+Lemma fold_inv_in {X Y} (f : X -> Y -> X) (P : X -> Prop) (l : list Y) :
+  (forall a b, In b l -> P a -> P (f a b)) -> forall a, P a -> P (fold_left f l a).
+Proof.
+  induction l as [|y l IH]; cbn; intros H a Ha; [exact Ha|].
+  apply IH; [intros; apply H; auto | apply H; auto].
+Qed.
+
+(* ------------------------------------------------------------------------------------------------ *)
+(* 1. the switch fields are touched by real changes only                                             *)
+Definition sw_eq (s s' : state) : Prop :=
+  inv s' = inv s /\ sst s' = sst s /\ hw s' = hw s /\ lc s' = lc s.
+
+Lemma sw_eq_refl s : sw_eq s s. Proof. repeat split. Qed.
+Lemma sw_eq_trans a b c : sw_eq a b -> sw_eq b c -> sw_eq a c.
+Proof. unfold sw_eq; intros (?&?&?&?) (?&?&?&?); repeat split; congruence. Qed.
+
+Lemma add_sw now s cb st ms : sw_eq s (add now s cb st ms).
+Proof. repeat split. Qed.
+Lemma rem_sw s cb st ms : sw_eq s (rem s cb st ms).
+Proof. repeat split. Qed.
+Lemma set_tm_sw s T : sw_eq s (set_tm s T).
+Proof. repeat split. Qed.
+
+Lemma run_acts_sw now l s : sw_eq s (run_acts now s l).
+Proof.
+  unfold run_acts. apply (fold_inv (run_act now) (sw_eq s)); [|apply sw_eq_refl].
+  intros a b Ha. eapply sw_eq_trans; [exact Ha|]. destruct b; [apply add_sw | apply rem_sw].
+Qed.
+
+Lemma call_one_sw A now v s0 acc e : sw_eq s0 (fst acc) -> sw_eq s0 (fst (call_one A now v acc e)).
+Proof.
+  destruct acc as [s lg]; unfold call_one; cbn [fst]. intros H.
+  destruct (negb (live s v e)); [exact H|].
+  destruct (snd e =? 0); cbn [fst].
+  - eapply sw_eq_trans; [exact H | apply run_acts_sw].
+  - eapply sw_eq_trans; [exact H | apply set_tm_sw].
+Qed.
+
+Lemma call_handlers_sw A now s v : sw_eq s (fst (call_handlers A now s v)).
+Proof.
+  unfold call_handlers.
+  apply (fold_inv (call_one A now v) (fun acc => sw_eq s (fst acc))); [|apply sw_eq_refl].
+  intros; apply call_one_sw; assumption.
+Qed.
+
+Lemma proc_one_sw A now k s0 acc e : sw_eq s0 (fst acc) -> sw_eq s0 (fst (proc_one A now k acc e)).
+Proof.
+  destruct acc as [s lg]; unfold proc_one; cbn [fst]. intros H.
+  destruct (existsb _ _); cbn [fst]; [|exact H].
+  eapply sw_eq_trans; [exact H | apply run_acts_sw].
+Qed.
+
+Lemma proc_key_sw A now s0 acc k : sw_eq s0 (fst acc) -> sw_eq s0 (fst (proc_key A now acc k)).
+Proof.
+  destruct acc as [s lg]; unfold proc_key; cbn [fst]. intros H.
+  destruct (k <=? now); [|exact H].
+  pose proof (fold_inv (proc_one A now k) (fun acc => sw_eq s0 (fst acc)) (tbl_get (get_tbl s) k)
+                (fun a b Ha => proc_one_sw A now k s0 a b Ha) (s, lg) H) as H1.
+  destruct (fold_left _ _ _) as [s1 lg1]; cbn [fst] in *.
+  eapply sw_eq_trans; [exact H1 | apply set_tm_sw].
+Qed.
+
+Lemma process_sw A now s w : sw_eq s (fst (process A now s w)).
+Proof.
+  unfold process.
+  destruct (cur _) as [c|]; [|apply set_tm_sw].
+  destruct (timed _) as [d|]; [|apply set_tm_sw].
+  match goal with |- context [fold_left ?f ?l ?a0] =>
+    pose proof (fold_inv f (fun acc => sw_eq s (fst acc)) l
+                  (fun x y Hx => proc_key_sw A now s x y Hx) a0 (set_tm_sw _ _)) as H1;
+    destruct (fold_left f l a0) as [s2 lg] end.
+  cbn [fst] in *. eapply sw_eq_trans; [exact H1 | apply set_tm_sw].
+Qed.
+
+(* what a report does to the switch fields *)
+Lemma report_state A now s lg v :
+  let s' := fst (report A now s lg v) in
+  inv s' = inv s /\ sst s' = logical_of (inv s) lg v.
+Proof.
+  unfold report. destruct (Bool.eqb _ _) eqn:E; cbn [fst].
+  - apply eqb_prop in E. split; [reflexivity | symmetry; exact E].
+  - destruct (call_handlers_sw A now
+               (mkS (inv s) (logical_of (inv s) lg v) (hw_of (inv s) lg v) now (rg s) (cancel (tm s)))
+               (logical_of (inv s) lg v)) as (H1 & H2 & _).
+    cbn in H1, H2. split; assumption.
+Qed.
+
+Lemma logical_hw nc lg v : hw_of nc lg v = xorb (logical_of nc lg v) nc.
+Proof. destruct nc, lg, v; reflexivity. Qed.
+
+Lemma report_hw A now s lg v :
+  hw s = xorb (sst s) (inv s) ->
+  let s' := fst (report A now s lg v) in hw s' = xorb (sst s') (inv s').
+Proof.
+  intros Hc. unfold report. destruct (Bool.eqb _ _) eqn:E; cbn [fst]; [exact Hc|].
+  destruct (call_handlers_sw A now
+               (mkS (inv s) (logical_of (inv s) lg v) (hw_of (inv s) lg v) now (rg s) (cancel (tm s)))
+               (logical_of (inv s) lg v)) as (H1 & H2 & H3 & _).
+  cbn in H1, H2, H3. rewrite H1, H2, H3. apply logical_hw.
+Qed.
+
+(* the logical value of the last report of a history (None: no report yet) *)
+Fixpoint last_logical (nc : bool) (evs : list (Z * ev)) (cur0 : bool) : bool :=
+  match evs with
+  | [] => cur0
+  | (_, EOp (OReport lg v)) :: evs' => last_logical nc evs' (logical_of nc lg v)
+  | _ :: evs' => last_logical nc evs' cur0
+  end.
+
+Lemma step_sw_other A s te :
+  (forall lg v, snd te <> EOp (OReport lg v)) -> sw_eq s (fst (step A s te)).
+Proof.
+  destruct te as [t e]; unfold step; cbn [fst snd]. intros H.
+  destruct e as [o|].
+  - destruct o; cbn [step_op fst]; try apply sw_eq_refl.
+    + exfalso; eapply H; reflexivity.
+    + apply add_sw.
+    + apply rem_sw.
+  - destruct (earliest _) as [[w tw]|]; [apply process_sw | apply sw_eq_refl].
+Qed.
+
+Lemma step_fields A s te :
+  hw s = xorb (sst s) (inv s) ->
+  let s1 := fst (step A s te) in
+  inv s1 = inv s /\ hw s1 = xorb (sst s1) (inv s1) /\
+  sst s1 = match te with (_, EOp (OReport lg v)) => logical_of (inv s) lg v | _ => sst s end.
+Proof.
+  intros Hc.
+  assert (Hother : (forall lg v, snd te <> EOp (OReport lg v)) ->
+                   let s1 := fst (step A s te) in
+                   inv s1 = inv s /\ hw s1 = xorb (sst s1) (inv s1) /\ sst s1 = sst s).
+  { intros H. destruct (step_sw_other A s te H) as (H1&H2&H3&_). cbn zeta.
+    rewrite H1, H2, H3. repeat split; assumption. }
+  destruct te as [t [o|]].
+  - destruct o as [lg v|cb st ms|cb st ms|st ms|].
+    + unfold step; cbn [fst snd step_op].
+      pose proof (report_state A t s lg v) as (H1 & H2). pose proof (report_hw A t s lg v Hc) as H3.
+      cbn zeta in *. repeat split; assumption.
+    + apply Hother; cbn; intros; discriminate.
+    + apply Hother; cbn; intros; discriminate.
+    + apply Hother; cbn; intros; discriminate.
+    + apply Hother; cbn; intros; discriminate.
+  - apply Hother; cbn; intros; discriminate.
+Qed.
+
+Lemma state_mirrors_l A evs : forall s,
+  hw s = xorb (sst s) (inv s) ->
+  let s' := fst (exec A s evs) in
+  inv s' = inv s /\ sst s' = last_logical (inv s) evs (sst s) /\ hw s' = xorb (sst s') (inv s').
+Proof.
+  induction evs as [|te evs IH]; intros s Hc; cbn [exec fst last_logical].
+  - repeat split; assumption.
+  - pose proof (step_fields A s te Hc) as Hs1. cbn zeta in Hs1.
+    destruct (step A s te) as [s1 l1] eqn:E1. cbn [fst] in Hs1.
+    destruct Hs1 as (Hi & Hh & Hst).
+    specialize (IH s1 Hh). cbn zeta in IH.
+    destruct (exec A s1 evs) as [s2 l2] eqn:E2. cbn [fst] in *. destruct IH as (I1 & I2 & I3).
+    split; [congruence|]. split; [|exact I3].
+    rewrite I2, Hi, Hst. destruct te as [t [[lg v| | | |]|]]; reflexivity.
+Qed.
+
+Lemma duplicate_is_noop_l A now s lg v :
+  logical_of (inv s) lg v = sst s -> step_op A now s (OReport lg v) = (s, []).
+Proof.
+  intros H. cbn [step_op]. unfold report. rewrite H. rewrite eqb_reflx. reflexivity.
+Qed.
+
+(* ------------------------------------------------------------------------------------------------ *)
+(* 2. exactly one wake-up handle per switch, and _process_active_timed_switches never hits a missing  *)
+(*    dictionary entry (fix 3)                                                                        *)
+Definition W (T : timers) : Prop :=
+  wakes T = match cur T with Some w => [w] | None => [] end /\ (cur T <> None -> timed T <> None).
+
+Definition nocrash (l : list obs) : Prop := forall t, ~ In (Crash t) l.
+
+Lemma nocrash_nil : nocrash []. Proof. intros t H; destruct H. Qed.
+Lemma nocrash_app a b : nocrash a -> nocrash b -> nocrash (a ++ b).
+Proof. intros Ha Hb t H. apply in_app_or in H as [H|H]; [eapply Ha | eapply Hb]; eauto. Qed.
+Lemma nocrash_fire t cb st ms : nocrash [Fire t cb st ms].
+Proof. intros t' [H|[]]; discriminate. Qed.
+
+Lemma drop_wake_self w : drop_wake (fst w) [w] = [].
+Proof. unfold drop_wake; cbn. rewrite Z.eqb_refl. reflexivity. Qed.
+
+Lemma schedule_W t T : wakes T = [] -> timed T <> None -> W (schedule t T).
+Proof. intros Hw Ht. unfold W, schedule; cbn. rewrite Hw. split; [reflexivity | intros _; exact Ht]. Qed.
+
+Lemma clear_cur_spec T : W T ->
+  cur (clear_cur T) = None /\ wakes (clear_cur T) = [] /\ timed (clear_cur T) = timed T.
+Proof.
+  intros [Hw _]. unfold clear_cur. destruct (cur T) as [[w tw]|] eqn:E; cbn.
+  - rewrite Hw. change w with (fst (w, tw)). rewrite drop_wake_self. auto.
+  - rewrite E, Hw. auto.
+Qed.
+
+Lemma add_timed_W T k e : W T -> W (add_timed T k e).
+Proof.
+  intros [Hw Ht]. unfold add_timed.
+  set (d' := match timed T with None => [(k, [e])] | Some d => tbl_add d k e end).
+  cbn [t_timed cur]. destruct (cur T) as [[w tw]|] eqn:E.
+  - destruct (tbl_min d' <? tw).
+    + apply schedule_W; cbn; [|discriminate]. rewrite Hw. change w with (fst (w, tw)). apply drop_wake_self.
+    + unfold W; cbn. rewrite E. split; [exact Hw | discriminate].
+  - apply schedule_W; cbn; [exact Hw | discriminate].
+Qed.
+
+Lemma cancel_W T : W T -> W (cancel T).
+Proof.
+  intros H. unfold cancel. destruct (timed T) eqn:E; [|exact H].
+  destruct (clear_cur_spec T H) as (H1 & H2 & _).
+  unfold W; cbn. rewrite H1, H2. split; [reflexivity | intros C; contradiction].
+Qed.
+
+Lemma resched_W T : W T -> W (resched T).
+Proof.
+  intros H. unfold resched. destruct (clear_cur_spec T H) as (H1 & H2 & H3).
+  destruct (timed (clear_cur T)) as [[|kl d]|] eqn:E.
+  - unfold W. rewrite H1, H2. split; [reflexivity | intros C; contradiction].
+  - apply schedule_W; [exact H2 | rewrite E; discriminate].
+  - unfold W. rewrite H1, H2. split; [reflexivity | intros C; contradiction].
+Qed.
+
+Lemma add_W now s cb st ms : W (tm s) -> W (tm (add now s cb st ms)).
+Proof. intros H. unfold add; cbn [tm]. destruct (_ && _); [apply add_timed_W|]; exact H. Qed.
+
+Lemma rem_W s cb st ms : W (tm s) -> W (tm (rem s cb st ms)).
+Proof.
+  intros H. unfold rem; cbn [tm]. destruct (timed (tm s)) eqn:E; [|exact H].
+  destruct H as [Hw _]. unfold W; cbn. split; [exact Hw | discriminate].
+Qed.
+
+Lemma run_acts_W now l s : W (tm s) -> W (tm (run_acts now s l)).
+Proof.
+  unfold run_acts. apply (fold_inv (run_act now) (fun s => W (tm s))).
+  intros a b Ha. destruct b; [apply add_W | apply rem_W]; exact Ha.
+Qed.
+
+Definition WN (acc : state * list obs) : Prop := W (tm (fst acc)) /\ nocrash (snd acc).
+
+Lemma call_one_WN A now v acc e : WN acc -> WN (call_one A now v acc e).
+Proof.
+  destruct acc as [s lg]; unfold WN, call_one; cbn [fst snd]. intros [H1 H2].
+  destruct (negb (live s v e)); [split; assumption|].
+  destruct (snd e =? 0); cbn [fst snd]; split.
+  - apply run_acts_W; exact H1.
+  - apply nocrash_app; [exact H2 | apply nocrash_fire].
+  - cbn. apply add_timed_W; exact H1.
+  - exact H2.
+Qed.
+
+Lemma call_handlers_WN A now s v : W (tm s) -> WN (call_handlers A now s v).
+Proof.
+  intros H. unfold call_handlers. apply (fold_inv (call_one A now v) WN).
+  - intros; apply call_one_WN; assumption.
+  - split; [exact H | apply nocrash_nil].
+Qed.
+
+Lemma report_WN A now s lg v : W (tm s) -> WN (report A now s lg v).
+Proof.
+  intros H. unfold report. destruct (Bool.eqb _ _).
+  - split; [exact H | apply nocrash_nil].
+  - apply call_handlers_WN. cbn. apply cancel_W; exact H.
+Qed.
+
+Lemma proc_one_WN A now k acc e : WN acc -> WN (proc_one A now k acc e).
+Proof.
+  destruct acc as [s lg]; unfold WN, proc_one; cbn [fst snd]. intros [H1 H2].
+  destruct (existsb _ _); cbn [fst snd]; split; try assumption.
+  - apply run_acts_W; exact H1.
+  - apply nocrash_app; [exact H2 | apply nocrash_fire].
+Qed.
+
+Lemma proc_key_WN A now acc k : WN acc -> WN (proc_key A now acc k).
+Proof.
+  destruct acc as [s lg]; unfold proc_key. intros H.
+  destruct (k <=? now); [|exact H].
+  pose proof (fold_inv (proc_one A now k) WN (tbl_get (get_tbl s) k)
+                (fun x y Hx => proc_one_WN A now k x y Hx) (s, lg) H) as H1.
+  destruct (fold_left _ _ _) as [s1 lg1]. destruct H1 as [[Hw _] Hn]; cbn [fst snd] in *.
+  split; cbn [fst snd]; [|exact Hn]. unfold W; cbn. split; [exact Hw | discriminate].
+Qed.
+
+Lemma earliest_single (w : wake) : earliest [w] = Some w.
+Proof. reflexivity. Qed.
+
+Lemma process_WN A now s w tw :
+  W (tm s) -> earliest (wakes (tm s)) = Some (w, tw) -> WN (process A now s w).
+Proof.
+  intros [Hw Ht] He. unfold process.
+  destruct (cur (tm s)) as [c|] eqn:Ec; [|rewrite Hw in He; discriminate].
+  rewrite Hw in He. cbn in He. injection He as ->.
+  cbn [cur timed wakes wid].
+  destruct (timed (tm s)) as [d|] eqn:Ed; [|exfalso; apply Ht; [discriminate | reflexivity]].
+  rewrite Hw. change w with (fst (w, tw)). rewrite drop_wake_self.
+  match goal with |- context [fold_left ?f ?l ?a0] =>
+    assert (H0 : WN a0) by (split; [unfold W; cbn; split; [reflexivity | intros C; contradiction] | apply nocrash_nil]);
+    pose proof (fold_inv f WN l (fun x y Hx => proc_key_WN A now x y Hx) a0 H0) as H1;
+    destruct (fold_left f l a0) as [s2 lg] end.
+  destruct H1 as [H1 H2]; cbn [fst snd] in *. split; cbn [fst snd]; [|exact H2].
+  cbn. apply resched_W; exact H1.
+Qed.
+
+Lemma step_WN A s te : W (tm s) -> WN (step A s te).
+Proof.
+  intros H. destruct te as [t [o|]]; unfold step; cbn [fst snd].
+  - destruct o; cbn [step_op].
+    + apply report_WN; exact H.
+    + split; [apply add_W; exact H | apply nocrash_nil].
+    + split; [apply rem_W; exact H | apply nocrash_nil].
+    + split; [exact H | intros t' [C|[]]; discriminate].
+    + split; [exact H | apply nocrash_nil].
+  - destruct (earliest _) as [[w tw]|] eqn:E.
+    + eapply process_WN; eauto.
+    + split; [exact H | apply nocrash_nil].
+Qed.
+
+Lemma exec_WN A evs : forall s, W (tm s) -> WN (exec A s evs).
+Proof.
+  induction evs as [|te evs IH]; intros s H; cbn [exec].
+  - split; [exact H | apply nocrash_nil].
+  - pose proof (step_WN A s te H) as H1. destruct (step A s te) as [s1 l1].
+    destruct H1 as [H1 H2]; cbn [fst snd] in *.
+    specialize (IH s1 H1). destruct (exec A s1 evs) as [s2 l2]. destruct IH as [I1 I2]; cbn [fst snd] in *.
+    split; cbn [fst snd]; [exact I1 | apply nocrash_app; assumption].
+Qed.
+
+Lemma init_W nc st h lc0 a b : W (tm (init_state nc st h lc0 a b)).
+Proof. unfold W; cbn. split; [reflexivity | intros C; contradiction]. Qed.
+
+(* ------------------------------------------------------------------------------------------------ *)
+(* 3. a removed handler never fires                                                                   *)
+Lemma eq_triple_true a b : eq_triple a b = true ->
+  fst (fst a) = fst (fst b) /\ snd (fst a) = snd (fst b) /\ snd a = snd b.
+Proof.
+  unfold eq_triple. intros H. apply andb_true_iff in H as [H H3]. apply andb_true_iff in H as [H1 H2].
+  apply Z.eqb_eq in H1, H3. apply eqb_prop in H2. auto.
+Qed.
+
+Lemma eq_triple_refl a : eq_triple a a = true.
+Proof. unfold eq_triple. rewrite !Z.eqb_refl, eqb_reflx. reflexivity. Qed.
+
+Lemma eq_triple_trans_false a b x : eq_triple a b = true -> eq_triple b x = false -> eq_triple a x = false.
+Proof.
+  intros H. apply eq_triple_true in H as (H1 & H2 & H3). unfold eq_triple. rewrite H1, H2, H3. auto.
+Qed.
+
+Definition tbl_ok (x : triple) (d : table) : Prop :=
+  forall k l, In (k, l) d -> forall e, In e l -> eq_triple e x = false.
+
+Lemma tbl_add_ok x d k e : tbl_ok x d -> eq_triple e x = false -> tbl_ok x (tbl_add d k e).
+Proof.
+  intros Hd He. induction d as [|[k' l'] d IH]; cbn.
+  - intros k0 l0 [H|[]] e0 H0. injection H as <- <-. destruct H0 as [<-|[]]. exact He.
+  - assert (Hd' : tbl_ok x d) by (intros k0 l0 H; apply (Hd k0 l0); right; exact H).
+    destruct (k =? k').
+    + intros k0 l0 [H|H] e0 H0.
+      * injection H as <- <-. apply in_app_or in H0 as [H0|[<-|[]]]; [|exact He].
+        apply (Hd k' l'); [left; reflexivity | exact H0].
+      * apply (Hd' k0 l0 H e0 H0).
+    + intros k0 l0 [H|H] e0 H0.
+      * apply (Hd k0 l0); [left; exact H | exact H0].
+      * apply (IH Hd' k0 l0 H e0 H0).
+Qed.
+
+Lemma tbl_del_ok x d k : tbl_ok x d -> tbl_ok x (tbl_del d k).
+Proof.
+  intros Hd. induction d as [|[k' l'] d IH]; cbn; [exact Hd|].
+  assert (Hd' : tbl_ok x d) by (intros k0 l0 H; apply (Hd k0 l0); right; exact H).
+  destruct (k =? k'); [exact Hd'|].
+  intros k0 l0 [H|H] e0 H0.
+  - apply (Hd k0 l0); [left; exact H | exact H0].
+  - apply (IH Hd' k0 l0 H e0 H0).
+Qed.
+
+Lemma tbl_filter_ok x y d : tbl_ok x d -> tbl_ok x (tbl_filter y d).
+Proof.
+  intros Hd k l H e He. unfold tbl_filter in H. apply in_map_iff in H as ([k' l'] & Heq & Hin).
+  cbn in Heq. injection Heq as <- <-. apply filter_In in He as [He _]. apply (Hd k' l' Hin e He).
+Qed.
+
+Lemma tbl_filter_self x d : tbl_ok x (tbl_filter x d).
+Proof.
+  intros k l H e He. unfold tbl_filter in H. apply in_map_iff in H as ([k' l'] & Heq & Hin).
+  cbn in Heq. injection Heq as <- <-. apply filter_In in He as [_ He]. apply negb_true_iff in He. exact He.
+Qed.
+
+Lemma tbl_get_ok x d k e : tbl_ok x d -> In e (tbl_get d k) -> eq_triple e x = false.
+Proof.
+  intros Hd. induction d as [|[k' l'] d IH]; cbn; [intros []|].
+  assert (Hd' : tbl_ok x d) by (intros k0 l0 H; apply (Hd k0 l0); right; exact H).
+  destruct (k =? k'); intros H.
+  - apply (Hd k' l'); [left; reflexivity | exact H].
+  - apply IH; assumption.
+Qed.
+
+Lemma timed_add_timed T k e :
+  timed (add_timed T k e) = Some (match timed T with None => [(k, [e])] | Some d => tbl_add d k e end).
+Proof.
+  unfold add_timed. cbn [t_timed cur]. destruct (cur T) as [[w tw]|]; [destruct (_ <? _)|]; reflexivity.
+Qed.
+
+Lemma reg_of_set_reg r st' l st :
+  reg_of (set_reg r st' l) st = if Bool.eqb st st' then l else reg_of r st.
+Proof. destruct st, st'; reflexivity. Qed.
+
+Section Removed.
+  Variables (A : Z -> list act) (cb : Z) (st : bool) (ms : Z).
+  Let x : triple := (cb, st, ms).
+
+  Definition act_ok (a : act) : Prop := a <> AAdd cb st ms.
+  Definition acts_ok : Prop := forall c, Forall act_ok (A c).
+  Definition ev_ok (te : Z * ev) : Prop := snd te <> EOp (OAdd cb st ms).
+
+  Definition absent (s : state) : Prop :=
+    (forall e, In e (reg_of (rg s) st) -> ent_match cb ms e = false) /\ tbl_ok x (get_tbl s).
+
+  Definition nofire (l : list obs) : Prop := forall t, ~ In (Fire t cb st ms) l.
+
+  Lemma nofire_nil : nofire []. Proof. intros t []. Qed.
+  Lemma nofire_app a b : nofire a -> nofire b -> nofire (a ++ b).
+  Proof. intros Ha Hb t H. apply in_app_or in H as [H|H]; [eapply Ha | eapply Hb]; eauto. Qed.
+
+  Lemma neq_triple cb' st' ms' : AAdd cb' st' ms' <> AAdd cb st ms -> eq_triple (cb', st', ms') x = false.
+  Proof.
+    intros H. destruct (eq_triple (cb', st', ms') x) eqn:E; [|reflexivity].
+    apply eq_triple_true in E as (E1 & E2 & E3). cbn in E1, E2, E3. subst. contradiction.
+  Qed.
+
+  Lemma get_tbl_add_timed T k e :
+    tbl_ok x (match timed T with Some d => d | None => [] end) -> eq_triple e x = false ->
+    tbl_ok x (match timed (add_timed T k e) with Some d => d | None => [] end).
+  Proof.
+    intros Hd He. rewrite timed_add_timed. destruct (timed T) as [d|].
+    - apply tbl_add_ok; assumption.
+    - change [(k, [e])] with (tbl_add [] k e). apply tbl_add_ok; assumption.
+  Qed.
+
+  Lemma add_absent now s cb' st' ms' :
+    AAdd cb' st' ms' <> AAdd cb st ms -> absent s -> absent (add now s cb' st' ms').
+  Proof.
+    intros Hne [Hr Ht]. pose proof (neq_triple _ _ _ Hne) as Hx. split.
+    - unfold add; cbn [rg]. intros e. rewrite reg_of_set_reg. cbn [reg_of].
+      destruct (Bool.eqb st st') eqn:E.
+      + apply eqb_prop in E; subst st'. intros H. apply in_app_or in H as [H|[<-|[]]].
+        * apply Hr. destruct st; exact H.
+        * unfold ent_match; cbn. unfold eq_triple in Hx; cbn in Hx. rewrite eqb_reflx, andb_true_r in Hx.
+          rewrite andb_comm. exact Hx.
+      + intros H. apply Hr. destruct st; exact H.
+    - unfold get_tbl, add; cbn [tm]. destruct (_ && _); [|exact Ht].
+      apply get_tbl_add_timed; assumption.
+  Qed.
+
+  Lemma rem_absent_pres s cb' st' ms' : absent s -> absent (rem s cb' st' ms').
+  Proof.
+    intros [Hr Ht]. split.
+    - unfold rem; cbn [rg]. intros e. rewrite reg_of_set_reg. destruct (Bool.eqb st st') eqn:E.
+      + apply eqb_prop in E; subst st'. intros H. apply filter_In in H as [H _]. apply Hr, H.
+      + apply Hr.
+    - unfold get_tbl, rem; cbn [tm]. unfold get_tbl in Ht. destruct (timed (tm s)) as [d|] eqn:E; cbn.
+      + apply tbl_filter_ok; exact Ht.
+      + rewrite E. exact Ht.
+  Qed.
+
+  Lemma rem_makes_absent s : absent (rem s cb st ms).
+  Proof.
+    split.
+    - unfold rem; cbn [rg]. intros e. rewrite reg_of_set_reg, eqb_reflx. intros H.
+      apply filter_In in H as [_ H]. apply negb_true_iff in H. exact H.
+    - unfold get_tbl, rem; cbn [tm]. destruct (timed (tm s)) as [d|] eqn:E; cbn.
+      + apply tbl_filter_self.
+      + rewrite E. intros k l [].
+  Qed.
+
+  Hypothesis HA : acts_ok.
+
+  Lemma run_acts_absent now c s : absent s -> absent (run_acts now s (A c)).
+  Proof.
+    unfold run_acts. specialize (HA c). revert s. induction (A c) as [|a l IH]; cbn; intros s Hs; [exact Hs|].
+    inversion HA as [|? ? Ha Hl]; subst. apply IH; [exact Hl|].
+    destruct a; cbn; [apply add_absent; [exact Ha | exact Hs] | apply rem_absent_pres; exact Hs].
+  Qed.
+
+  Lemma live_absent s e : absent s -> live s st e = true -> ent_match cb ms e = false.
+  Proof.
+    intros [Hr _] H. unfold live in H. apply existsb_exists in H as (e' & Hin & He).
+    specialize (Hr e' Hin). unfold ent_eqb in He. apply andb_true_iff in He as [He H3].
+    apply andb_true_iff in He as [H1 H2]. apply Z.eqb_eq in H2, H3.
+    unfold ent_match in *. rewrite H2, H3. exact Hr.
+  Qed.
+
+  Definition AN (acc : state * list obs) : Prop := absent (fst acc) /\ nofire (snd acc).
+
+  Lemma call_one_AN now v acc e : AN acc -> AN (call_one A now v acc e).
+  Proof.
+    destruct acc as [s lg]; unfold AN, call_one; cbn [fst snd]. intros [H1 H2].
+    destruct (negb (live s v e)) eqn:El; [split; assumption|].
+    apply negb_false_iff in El.
+    assert (Hm : v = st -> ent_match cb ms e = false) by (intros ->; eapply live_absent; eauto).
+    destruct (snd e =? 0) eqn:E0; cbn [fst snd]; split.
+    - apply run_acts_absent; exact H1.
+    - apply nofire_app; [exact H2|]. intros t [H|[]]. injection H as _ Hc Hv Hms. subst v.
+      specialize (Hm eq_refl). unfold ent_match in Hm. apply Z.eqb_eq in E0.
+      rewrite E0, Hc, <- Hms, !Z.eqb_refl in Hm. discriminate.
+    - destruct H1 as [Hr Ht]. split; [exact Hr|]. unfold get_tbl; cbn [set_tm tm].
+      apply get_tbl_add_timed; [exact Ht|].
+      destruct (eq_triple (snd (fst e), v, snd e) x) eqn:Ex; [|reflexivity].
+      apply eq_triple_true in Ex as (E1 & E2 & E3). cbn in E1, E2, E3. subst v.
+      specialize (Hm eq_refl). unfold ent_match in Hm. rewrite E1, E3, !Z.eqb_refl in Hm. discriminate.
+    - exact H2.
+  Qed.
+
+  Lemma call_handlers_AN now s v : absent s -> AN (call_handlers A now s v).
+  Proof.
+    intros H. unfold call_handlers. apply (fold_inv (call_one A now v) AN).
+    - intros; apply call_one_AN; assumption.
+    - split; [exact H | apply nofire_nil].
+  Qed.
+
+  Lemma report_AN now s lg v : absent s -> AN (report A now s lg v).
+  Proof.
+    intros H. unfold report. destruct (Bool.eqb _ _).
+    - split; [exact H | apply nofire_nil].
+    - apply call_handlers_AN. destruct H as [Hr Ht]. split; [exact Hr|].
+      unfold get_tbl in *; cbn [tm]. unfold cancel. destruct (timed (tm s)) as [d|] eqn:E.
+      + cbn. intros k l [].
+      + rewrite E. exact Ht.
+  Qed.
+
+  Lemma proc_one_AN now k acc e : AN acc -> AN (proc_one A now k acc e).
+  Proof.
+    destruct acc as [s lg]; unfold AN, proc_one; cbn [fst snd]. intros [H1 H2].
+    destruct (existsb _ _) eqn:Ee; cbn [fst snd]; split; try assumption.
+    - apply run_acts_absent; exact H1.
+    - apply nofire_app; [exact H2|]. intros t [H|[]]. injection H as _ Hc Hv Hms.
+      apply existsb_exists in Ee as (e' & Hin & He).
+      destruct H1 as [_ Ht]. pose proof (tbl_get_ok x _ _ _ Ht Hin) as Hx.
+      pose proof (eq_triple_trans_false _ _ _ He Hx) as Hf.
+      unfold eq_triple, x in Hf; cbn in Hf. rewrite Hc, Hv, Hms, !Z.eqb_refl, eqb_reflx in Hf. discriminate.
+  Qed.
+
+  Lemma proc_key_AN now acc k : AN acc -> AN (proc_key A now acc k).
+  Proof.
+    destruct acc as [s lg]; unfold proc_key. intros H.
+    destruct (k <=? now); [|exact H].
+    pose proof (fold_inv (proc_one A now k) AN (tbl_get (get_tbl s) k)
+                  (fun a b Ha => proc_one_AN now k a b Ha) (s, lg) H) as H1.
+    destruct (fold_left _ _ _) as [s1 lg1]. destruct H1 as [[Hr Ht] Hn]; cbn [fst snd] in *.
+    split; cbn [fst snd]; [|exact Hn]. split; [exact Hr|].
+    unfold get_tbl at 1; cbn. apply tbl_del_ok; exact Ht.
+  Qed.
+
+  Lemma timed_resched T : timed (resched T) = timed T.
+  Proof.
+    unfold resched.
+    assert (H : timed (clear_cur T) = timed T) by (unfold clear_cur; destruct (cur T) as [[? ?]|]; reflexivity).
+    destruct (timed (clear_cur T)) as [[|kl d]|] eqn:E; cbn; congruence.
+  Qed.
+
+  Lemma process_AN now s w : absent s -> AN (process A now s w).
+  Proof.
+    intros [Hr Ht]. unfold process. cbn [cur timed wakes wid].
+    destruct (cur (tm s)) as [c|]; [|split; [split; [exact Hr | exact Ht] | intros t [H|[]]; discriminate]].
+    destruct (timed (tm s)) as [d|] eqn:Ed.
+    - match goal with |- context [fold_left ?f ?l ?a0] =>
+        assert (H0 : AN a0) by (split; [split; [exact Hr | unfold get_tbl in *; cbn; rewrite Ed in Ht; exact Ht]
+                                       | apply nofire_nil]);
+        pose proof (fold_inv f AN l (fun a b Ha => proc_key_AN now a b Ha) a0 H0) as H1;
+        destruct (fold_left f l a0) as [s2 lg] end.
+      destruct H1 as [[H1r H1t] H2]; cbn [fst snd] in *. split; cbn [fst snd]; [|exact H2].
+      split; [exact H1r|]. unfold get_tbl in *; cbn [set_tm tm]. rewrite timed_resched. exact H1t.
+    - split; [split; [exact Hr | cbn; intros k l []] | intros t [H|[]]; discriminate].
+  Qed.
+
+  Lemma step_AN s te : ev_ok te -> absent s -> AN (step A s te).
+  Proof.
+    intros Hev H. destruct te as [t [o|]]; unfold step; cbn [fst snd].
+    - destruct o as [lg v|cb' st' ms'|cb' st' ms'|st' ms'|]; cbn [step_op].
+      + apply report_AN; exact H.
+      + split; [|apply nofire_nil]. cbn [fst]. apply add_absent; [|exact H].
+        intros C. apply Hev. cbn. injection C as -> -> ->. reflexivity.
+      + split; [apply rem_absent_pres; exact H | apply nofire_nil].
+      + split; [exact H | intros t' [C|[]]; discriminate].
+      + split; [exact H | apply nofire_nil].
+    - destruct (earliest _) as [[w tw]|].
+      + apply process_AN; exact H.
+      + split; [exact H | apply nofire_nil].
+  Qed.
+
+  Lemma exec_AN evs : forall s, Forall ev_ok evs -> absent s -> AN (exec A s evs).
+  Proof.
+    induction evs as [|te evs IH]; intros s Hev H; cbn [exec].
+    - split; [exact H | apply nofire_nil].
+    - inversion Hev as [|? ? He Hevs]; subst.
+      pose proof (step_AN s te He H) as H1. destruct (step A s te) as [s1 l1].
+      destruct H1 as [H1 H2]; cbn [fst snd] in *.
+      specialize (IH s1 Hevs H1). destruct (exec A s1 evs) as [s2 l2]. destruct IH as [I1 I2]; cbn [fst snd] in *.
+      split; cbn [fst snd]; [exact I1 | apply nofire_app; assumption].
+  Qed.
+
+  Lemma removed_never_fires_l s evs :
+    Forall ev_ok evs -> nofire (snd (exec A (rem s cb st ms) evs)).
+  Proof. intros Hev. apply exec_AN; [exact Hev | apply rem_makes_absent]. Qed.
+End Removed.
+
+(* ------------------------------------------------------------------------------------------------ *)
+(* 4. untimed handlers: exactly once per real change, in registration order                           *)
+Definition adds_only (A : Z -> list act) : Prop :=
+  forall c a, In a (A c) -> exists cb st ms, a = AAdd cb st ms.
+
+Definition untimed_fires (now : Z) (v : bool) (l : list entry) : list obs :=
+  flat_map (fun e => if snd e =? 0 then [Fire now (snd (fst e)) v 0] else []) l.
+
+Lemma ent_eqb_refl e : ent_eqb e e = true.
+Proof. unfold ent_eqb. rewrite !Z.eqb_refl. reflexivity. Qed.
+
+Lemma in_live s v e : In e (reg_of (rg s) v) -> live s v e = true.
+Proof. intros H. unfold live. apply existsb_exists. exists e. split; [exact H | apply ent_eqb_refl]. Qed.
+
+Lemma add_reg_mono now s cb st ms v e :
+  In e (reg_of (rg s) v) -> In e (reg_of (rg (add now s cb st ms)) v).
+Proof.
+  intros H. unfold add; cbn [rg]. rewrite reg_of_set_reg. destruct (Bool.eqb v st) eqn:E.
+  - apply eqb_prop in E; subst. apply in_or_app; left. destruct st; exact H.
+  - destruct v; exact H.
+Qed.
+
+Lemma run_acts_reg_mono A now c s v e :
+  adds_only A -> In e (reg_of (rg s) v) -> In e (reg_of (rg (run_acts now s (A c))) v).
+Proof.
+  intros HA. specialize (HA c). unfold run_acts. revert s.
+  induction (A c) as [|a l IH]; cbn [fold_left]; intros s H; [exact H|].
+  apply IH; [intros a' Ha'; apply HA; right; exact Ha'|].
+  destruct (HA a (or_introl eq_refl)) as (cb & st & ms & ->). cbn [run_act]. apply add_reg_mono; exact H.
+Qed.
+
+Lemma call_fold_log A now v : adds_only A -> forall l s lg,
+  (forall e, In e l -> In e (reg_of (rg s) v)) ->
+  snd (fold_left (call_one A now v) l (s, lg)) = lg ++ untimed_fires now v l.
+Proof.
+  intros HA. induction l as [|e l IH]; intros s lg Hin; cbn [fold_left untimed_fires flat_map].
+  - rewrite app_nil_r. reflexivity.
+  - unfold call_one at 2. rewrite (in_live s v e (Hin e (or_introl eq_refl))). cbn [negb].
+    destruct (snd e =? 0).
+    + rewrite IH; [rewrite <- app_assoc; reflexivity|].
+      intros e' He'. apply run_acts_reg_mono; [exact HA | apply Hin; right; exact He'].
+    + rewrite IH; [reflexivity|]. intros e' He'. cbn. apply Hin; right; exact He'.
+Qed.
+
+Lemma untimed_once_l A now s lg val :
+  adds_only A -> logical_of (inv s) lg val <> sst s ->
+  snd (report A now s lg val)
+  = untimed_fires now (logical_of (inv s) lg val) (reg_of (rg s) (logical_of (inv s) lg val)).
+Proof.
+  intros HA Hne. unfold report. destruct (Bool.eqb _ _) eqn:E; [apply eqb_prop in E; contradiction|].
+  unfold call_handlers. cbn [rg]. rewrite call_fold_log; [reflexivity | exact HA | auto].
+Qed.
+
+(* ------------------------------------------------------------------------------------------------ *)
+(* 5. timed handlers: where the deadlines come from                                                   *)
+Definition has (s : state) (k : Z) (e : triple) : Prop := In e (tbl_get (get_tbl s) k).
+
+Lemma tbl_get_add_new d k e : In e (tbl_get (tbl_add d k e) k).
+Proof.
+  induction d as [|[k' l'] d IH]; cbn.
+  - rewrite Z.eqb_refl. left; reflexivity.
+  - destruct (k =? k') eqn:E; cbn; rewrite E; [apply in_or_app; right; left; reflexivity | exact IH].
+Qed.
+
+Lemma tbl_get_add_mono d k e k0 e0 : In e0 (tbl_get d k0) -> In e0 (tbl_get (tbl_add d k e) k0).
+Proof.
+  induction d as [|[k' l'] d IH]; cbn; [intros []|].
+  destruct (k =? k') eqn:E; cbn; destruct (k0 =? k') eqn:E0; intros H; try assumption.
+  - apply in_or_app; left; exact H.
+  - apply IH; exact H.
+Qed.
+
+Lemma get_tbl_add_timed_eq T k e :
+  match timed (add_timed T k e) with Some d => d | None => [] end
+  = tbl_add (match timed T with Some d => d | None => [] end) k e.
+Proof. rewrite timed_add_timed. destruct (timed T); reflexivity. Qed.
+
+Lemma add_has_mono now s cb st ms k e : has s k e -> has (add now s cb st ms) k e.
+Proof.
+  unfold has, get_tbl, add; cbn [tm]. intros H. destruct (_ && _); [|exact H].
+  rewrite get_tbl_add_timed_eq. apply tbl_get_add_mono; exact H.
+Qed.
+
+Lemma run_acts_has_mono A now c s k e : adds_only A -> has s k e -> has (run_acts now s (A c)) k e.
+Proof.
+  intros HA. specialize (HA c). unfold run_acts. revert s.
+  induction (A c) as [|a l IH]; cbn [fold_left]; intros s H; [exact H|].
+  apply IH; [intros a' Ha'; apply HA; right; exact Ha'|].
+  destruct (HA a (or_introl eq_refl)) as (cb & st & ms & ->). cbn [run_act]. apply add_has_mono; exact H.
+Qed.
+
+(* catch-up on registration (fix 1): the handler is entered at the ORIGINAL deadline last_change + ms iff that
+   deadline is still ahead; otherwise the deadline table is left alone *)
+Lemma catchup_l now s cb ms :
+  0 < ms ->
+  let s' := add now s cb (sst s) ms in
+  (now < lc s + us ms -> has s' (lc s + us ms) (cb, sst s, ms)) /\
+  (lc s + us ms <= now -> tm s' = tm s).
+Proof.
+  intros Hms. cbn zeta. unfold add, has, get_tbl; cbn [tm]. rewrite eqb_reflx, andb_true_r.
+  assert (E0 : (ms =? 0) = false) by (apply Z.eqb_neq; lia). rewrite E0. cbn [negb andb].
+  split; intros H.
+  - assert (E : (lc s >? now - us ms) = true) by (apply Z.gtb_lt; lia). rewrite E.
+    rewrite get_tbl_add_timed_eq. apply tbl_get_add_new.
+  - assert (E : (lc s >? now - us ms) = false).
+    { destruct (lc s >? now - us ms) eqn:E; [apply Z.gtb_lt in E; lia | reflexivity]. }
+    rewrite E. reflexivity.
+Qed.
+
+(* a handler registered for the other state is never entered by registration *)
+Lemma add_other_state_l now s cb st ms : st <> sst s -> tm (add now s cb st ms) = tm s.
+Proof.
+  intros H. unfold add; cbn [tm]. destruct (Bool.eqb st (sst s)) eqn:E; [apply eqb_prop in E; contradiction|].
+  rewrite andb_false_r. reflexivity.
+Qed.
+
+(* a real change at [now] enters every timed handler registered for the new state at now + ms *)
+Lemma call_fold_has A now v : adds_only A -> forall l s lg,
+  (forall e, In e l -> In e (reg_of (rg s) v)) -> lc s = now ->
+  let s' := fst (fold_left (call_one A now v) l (s, lg)) in
+  (forall k e, has s k e -> has s' k e) /\
+  (forall e, In e l -> snd e <> 0 -> has s' (now + us (snd e)) (snd (fst e), v, snd e)).
+Proof.
+  intros HA. induction l as [|e l IH]; intros s lg Hin Hlc; cbn [fold_left fst].
+  - split; [auto | intros e []].
+  - assert (Hstep : call_one A now v (s, lg) e
+                    = if snd e =? 0 then (run_acts now s (A (snd (fst e))), lg ++ [Fire now (snd (fst e)) v 0])
+                      else (set_tm s (add_timed (tm s) (lc s + us (snd e)) (snd (fst e), v, snd e)), lg)).
+    { unfold call_one. rewrite (in_live s v e (Hin e (or_introl eq_refl))). reflexivity. }
+    rewrite Hstep. clear Hstep.
+    destruct (snd e =? 0) eqn:E0.
+    + specialize (IH (run_acts now s (A (snd (fst e)))) (lg ++ [Fire now (snd (fst e)) v 0])).
+      destruct IH as [I1 I2].
+      * intros e' He'. apply run_acts_reg_mono; [exact HA | apply Hin; right; exact He'].
+      * destruct (run_acts_sw now (A (snd (fst e))) s) as (_&_&_&->). exact Hlc.
+      * split.
+        -- intros k e' H. apply I1. apply run_acts_has_mono; assumption.
+        -- intros e' [Heq|He'] Hn; [subst e'; apply Z.eqb_eq in E0; contradiction | apply I2; assumption].
+    + specialize (IH (set_tm s (add_timed (tm s) (lc s + us (snd e)) (snd (fst e), v, snd e))) lg).
+      destruct IH as [I1 I2].
+      * intros e' He'. cbn. apply Hin; right; exact He'.
+      * exact Hlc.
+      * split.
+        -- intros k e' H. apply I1. unfold has, get_tbl in *; cbn [set_tm tm].
+           rewrite get_tbl_add_timed_eq. apply tbl_get_add_mono; exact H.
+        -- intros e' [Heq|He'] Hn; [subst e'|apply I2; assumption].
+           apply I1. unfold has, get_tbl; cbn [set_tm tm]. rewrite get_tbl_add_timed_eq, Hlc.
+           apply tbl_get_add_new.
+Qed.
+
+Lemma change_schedules_l A now s lg val :
+  adds_only A -> logical_of (inv s) lg val <> sst s ->
+  let v := logical_of (inv s) lg val in
+  let s' := fst (report A now s lg val) in
+  forall e, In e (reg_of (rg s) v) -> snd e <> 0 -> has s' (now + us (snd e)) (snd (fst e), v, snd e).
+Proof.
+  intros HA Hne. cbn zeta. unfold report. destruct (Bool.eqb _ _) eqn:E; [apply eqb_prop in E; contradiction|].
+  unfold call_handlers. cbn [rg].
+  match goal with |- context [fold_left ?f ?l (?s0, [])] =>
+    destruct (call_fold_has A now (logical_of (inv s) lg val) HA l s0 []) as [_ H2]; [auto | reflexivity |] end.
+  exact H2.
+Qed.
+
+(* a real change forgets every pending deadline of the previous state *)
+Lemma change_cancels_l (T : timers) : timed (cancel T) = None.
+Proof. unfold cancel. destruct (timed T) eqn:E; [reflexivity | exact E]. Qed.
+
+(* ------------------------------------------------------------------------------------------------ *)
+(* Examples: the hypotheses of the theorems are satisfiable on non-trivial states, and the three      *)
+(* repaired scenarios computed on the model                                                          *)
+Definition exA (c : Z) : list act :=
+  if c =? 1 then [AAdd 2 true 750] else if c =? 3 then [ARem 4 true 250; AAdd 5 false 125] else [].
+Definition exA_adds (c : Z) : list act := if c =? 1 then [AAdd 2 true 750; AAdd 6 true 0] else [].
+
+(* an NC switch, inactive, with its two event handlers, one untimed and two timed handlers *)
+Definition ex_s0 : state :=
+  let s := init_state true false true (-100000000000) [(1000, 0)] [(1001, 0)] in
+  add 0 (add 0 (add 0 (add 0 s 1 true 250) 4 true 250) 3 true 0) 7 true 500.
+
+Example ex_consistent : hw ex_s0 = xorb (sst ex_s0) (inv ex_s0).
+Proof. reflexivity. Qed.
+
+Example ex_W : W (tm ex_s0).
+Proof. unfold W; cbn. split; [reflexivity | intros C; contradiction]. Qed.
+
+Example ex_adds_only : adds_only exA_adds.
+Proof.
+  intros c a. unfold exA_adds. destruct (c =? 1); [|intros []].
+  intros [<-|[<-|[]]]; eauto.
+Qed.
+
+Example ex_acts_ok : acts_ok exA 4 true 250.
+Proof.
+  intros c. unfold exA. destruct (c =? 1); [|destruct (c =? 3)]; repeat constructor; discriminate.
+Qed.
+
+(* the history used below: raw report 0 on the NC switch = logical active at 1 s; the handler (4,1,250) is
+   removed at 1.125 s; wake-ups at 1.25 s, 1.5 s, 1.75 s *)
+Definition ex_evs : list (Z * ev) :=
+  [(1000000, EOp (OReport false false)); (1125000, EOp (ORem 4 true 250));
+   (1250000, EWake); (1500000, EWake); (1750000, EWake); (2000000, EOp (OReport true true))].
+
+Example ex_ev_ok : Forall (ev_ok 4 true 250) (tl (tl ex_evs)).
+Proof. repeat constructor; discriminate. Qed.
+
+(* with the removal: callback 4 never runs; callback 1 runs at 1.25 s and registers (2,1,750), which runs at
+   the ORIGINAL deadline 1.75 s; 7 at 1.5 s; exactly one wake-up at every point; no crash (fix 3) *)
+Example ex_run :
+  snd (exec exA ex_s0 ex_evs)
+  = [Fire 1000000 1001 true 0; Fire 1000000 3 true 0;
+     Fire 1250000 1 true 250; Fire 1500000 7 true 500; Fire 1750000 2 true 750].
+Proof. vm_compute. reflexivity. Qed.
+
+(* without it, callback 3 (untimed, runs during the change) removes (4,1,250) itself: still never fires *)
+Example ex_run_reentrant_removal :
+  snd (exec exA ex_s0 [(1000000, EOp (OReport false false)); (1250000, EWake)])
+  = [Fire 1000000 1001 true 0; Fire 1000000 3 true 0; Fire 1250000 1 true 250].
+Proof. vm_compute. reflexivity. Qed.
+
+(* and with no removal at all it does fire (the theorem is not vacuous) *)
+Example ex_run_not_removed :
+  snd (exec (fun _ => []) ex_s0 [(1000000, EOp (OReport false false)); (1250000, EWake)])
+  = [Fire 1000000 1001 true 0; Fire 1000000 3 true 0; Fire 1250000 1 true 250; Fire 1250000 4 true 250].
+Proof. vm_compute. reflexivity. Qed.
+
+(* fix 1: active since 1 s; a 500 ms handler registered at 301 s is NOT entered (the unfixed code fired it at once) *)
+Example ex_catchup_late :
+  let s := fst (exec exA ex_s0 [(1000000, EOp (OReport false false))]) in
+  tm (add 301000000 s 9 true 500) = tm s /\ 0 < 500 /\ lc s + us 500 <= 301000000.
+Proof. vm_compute. repeat split; discriminate. Qed.
+
+(* ... and registered at 1.25 s it is entered at the original deadline 1.5 s *)
+Example ex_catchup_ahead :
+  let s := fst (exec exA ex_s0 [(1000000, EOp (OReport false false))]) in
+  has (add 1250000 s 9 true 500) 1500000 (9, true, 500) /\ 1250000 < lc s + us 500.
+Proof. vm_compute. split; [right; left; reflexivity | reflexivity]. Qed.
+
+(* fix 2: the same (callback,state,ms) registered twice and removed during the interval: neither copy fires *)
+Example ex_duplicate_removed :
+  let s := add 0 (add 0 (init_state false false false (-100000000000) [] []) 1 true 500) 1 true 500 in
+  snd (exec (fun _ => []) s [(1000000, EOp (OReport true true)); (1250000, EOp (ORem 1 true 500));
+                             (1500000, EWake); (2000000, EWake)]) = [].
+Proof. vm_compute. reflexivity. Qed.
+
+Example ex_change_hyp : logical_of (inv ex_s0) false false <> sst ex_s0.
+Proof. vm_compute. discriminate. Qed.
